@@ -518,6 +518,29 @@ func (env *specEnv) call(e *ast.CallExpr) Val {
 			}
 		}
 		return env.fail("unbox: unknown type")
+	case "asptr", "ptrtag":
+		// asptr(ifaceValue, "pkg.Type"): the interface reference viewed as *pkg.Type; ptrtag: its dynamic-type tag
+		idx := 1
+		if name == "ptrtag" {
+			idx = 0
+		}
+		if lit, ok := e.Args[idx].(*ast.BasicLit); ok {
+			tn, _ := strconv.Unquote(lit.Value)
+			if i := strings.LastIndex(tn, "."); i > 0 {
+				for _, tp := range fv.eng.allTypes {
+					if tp.Name() == tn[:i] {
+						if o := tp.Scope().Lookup(tn[i+1:]); o != nil {
+							pt := types.NewPointer(o.Type())
+							if name == "ptrtag" {
+								return Val{T: fv.dynTag(pt), Sort: "Int"}
+							}
+							return Val{T: arg(0).T, Ty: pt}
+						}
+					}
+				}
+			}
+		}
+		return env.fail(name + ": unknown type")
 	case "typetag":
 		// typetag("pkg.Type"): the dynamic-type tag of a named Go type
 		if lit, ok := e.Args[0].(*ast.BasicLit); ok {
